@@ -27,7 +27,7 @@ RUSTFLAGS = "-A dangerous_implicit_autorefs -A warnings"
 NCPU = os.cpu_count() or 4
 
 TIER_BUDGET = {  # per-harness timeout, whole-run timeout (seconds)
-    "quick": (420, 1500),
+    "quick": (600, 2400),
     "thorough": (2400, 5400),
 }
 
@@ -100,6 +100,8 @@ def select(reg, prop, tier, only=None):
         if only and h["name"] not in only:
             continue
         if tier == "quick" and h["tier"] != "quick":
+            continue
+        if h["tier"] == "probe" and not only:      # experimental harnesses run only when named explicitly
             continue
         out.append(h)
     return out
@@ -518,12 +520,19 @@ def finish(prop, tier, seed, t0, hs, res, problems, violations, known_lines, src
             os.makedirs(os.path.join(REPLAY_DIR, prop), exist_ok=True)
             rp = os.path.join(REPLAY_DIR, prop, "mirsmt.json")
             json.dump(smt, open(rp, "w"), indent=1)
-            if violations:
-                # the Kani harness over the same function produced a natively replayed counterexample
-                violations.append(("mirsmt", smt.get("failures"), rp))
-            else:
-                problems.append("MIR->SMT cross-check refuted " + ", ".join(f["obligation"] for f in smt["failures"]) +
-                                f" but no Kani counterexample was replayed natively (see {rp}) - inconclusive")
+            known = load_known()
+            for f in smt["failures"]:
+                key = "mirsmt|" + f["obligation"]
+                if f.get("reproduced") or violations:
+                    # natively replayed (own replay recipe, or the Kani harness over the same function was)
+                    e = next((e for e in known["known"] if e["key"] == key and prop in e["properties"]), None)
+                    if e:
+                        known_lines.append(f"KNOWN-FINDING: property={prop} {e['what']}")
+                    else:
+                        violations.append(("mirsmt:" + f["obligation"], [f], rp))
+                else:
+                    problems.append(f"MIR->SMT cross-check refuted {f['obligation']} but the counterexample was not "
+                                    f"reproduced natively (see {rp}) - inconclusive")
         elif smt and smt.get("status") in ("error", "inconclusive"):
             log(f"[{prop}] MIR->SMT cross-check inconclusive: {smt.get('error') or smt.get('reason')}")
     write_evidence(prop, tier, seed, t0, hs, res, problems, violations, known_lines, src_hash, smt)
